@@ -16,6 +16,11 @@ pub struct HEntry {
 pub struct ScriptState {
     pub idx: u64,
     pub hist: Vec<HEntry>,
+    /// the timer names the process itself believes to be pending, from the calls it made (set / set_once / cancel) and
+    /// the firings it saw; a function of `hist` (so state equality is unchanged); not tracked by stateless processes.
+    /// Compared with the framework's bookkeeping on every model-checked state (C07).
+    pub ptimers: std::collections::BTreeSet<u64>,
+    pub tracks: bool,
 }
 
 #[derive(Clone, Debug)]
@@ -95,6 +100,10 @@ impl ScriptProc {
         let time = if self.rectime { Some(ctx.time().to_bits()) } else { None };
         if !self.stateless {
             self.st.hist.push(HEntry { key: key.clone(), time, draws });
+            self.st.tracks = true;
+            if key.len() == 2 && key[0] == 3 {
+                self.st.ptimers.remove(&key[1]);      // a firing frees the name before the handler acts
+            }
         }
         if self.stateless || self.st.idx < self.cap {
             let mut h: u64 = if self.stateless { 0 } else { (self.st.idx * 31) % (1u64 << 32) };
@@ -121,6 +130,9 @@ impl ScriptProc {
                         if let Some(p) = self.me {
                             CALLS.with(|c| c.borrow_mut().push(format!("XCALL {} {} {} {}", p, if once { "SETONCE" } else { "SET" }, name, delay.to_bits())));
                         }
+                        if !self.stateless {
+                            self.st.ptimers.insert(name);     // set: pending; set_once: pending either way
+                        }
                         if once {
                             ctx.set_timer_once(&tname(name), delay)
                         } else {
@@ -130,6 +142,9 @@ impl ScriptProc {
                     Act::Cancel { name } => {
                         if let Some(p) = self.me {
                             CALLS.with(|c| c.borrow_mut().push(format!("XCALL {} CANCEL {}", p, name)));
+                        }
+                        if !self.stateless {
+                            self.st.ptimers.remove(&name);
                         }
                         ctx.cancel_timer(&tname(name))
                     }
